@@ -265,6 +265,24 @@ def check_case(case):
             k = bpauli.bvector_to_int(v)
             if list(map(int, bpauli.int_to_bvector(k, n))) != want:
                 return 'int_to_bvector(bvector_to_int(v)) != v'
+            # the conversions hand out values, not shared buffers: a caller that writes into a returned vector
+            # (accumulating a product with ^=, as the analysis code does) must not change what the next
+            # conversion of the same operator returns, nor a sibling of the same batch
+            for f, arg in ((bpauli.pauli_string_to_bvector, (ps,)), (bpauli.pauli_to_bsf, (ps,)),
+                           (bpauli.int_to_bvector, (k, n))):
+                r = f(*arg)
+                if isinstance(r, np.ndarray) and r.flags.writeable:
+                    r ^= 1
+                    if list(map(int, f(*arg))) != want:
+                        return (f'{f.__name__} returns a different vector once the caller has written into an '
+                                f'earlier result (conversion then conversion of the same operator)')
+            batch = bpauli.ints_to_bvectors([k, k], n)
+            if isinstance(batch, np.ndarray) or isinstance(batch, list):
+                first = batch[0]
+                if isinstance(first, np.ndarray) and first.flags.writeable:
+                    first ^= 1
+                    if list(map(int, batch[1])) != want:
+                        return 'ints_to_bvectors([k, k]): writing into the first vector changes the second'
             return None
         if kind == 'stack':
             # a stack of operators in every 2-D representation: its weight is the number of non-identity
